@@ -11,9 +11,9 @@ LEAN_PROOF_TARGETS = ["PyroProps.C10"]
 AUDIT_FILES = ["PyroModel/Streams.lean", "PyroModel/StreamsRace.lean", "PyroModel/Lock.lean", "PyroModel/Gen/C10.lean",
                "PyroProofs/Streams.lean", "PyroProofs/StreamsRace.lean", "PyroProofs/Lock.lean", "PyroProps/C10.lean"]
 THEOREMS = ["Pyro.C10.C10_gen_facts", "Pyro.C10.C10_gen_removal_tolerant", "Pyro.C10.C10_gen_housekeeping_locked",
-            "Pyro.C10.C10_gen_environment", "Pyro.C10.C10_prefix", "Pyro.C10.C10_next_exact", "Pyro.C10.C10_end", "Pyro.C10.C10_forgotten",
+            "Pyro.C10.C10_gen_environment", "Pyro.C10.C10_gen_expiry_probe", "Pyro.C10.C10_gen_disconnect_probe", "Pyro.C10.C10_prefix", "Pyro.C10.C10_next_exact", "Pyro.C10.C10_end", "Pyro.C10.C10_forgotten",
             "Pyro.C10.C10_forget_conditions", "Pyro.C10.C10_resume", "Pyro.C10.C10_quiescent", "Pyro.C10.C10_expiry_empties",
-            "Pyro.C10.C10_client_refines", "Pyro.C10.C10_client_exact", "Pyro.C10.C10_client_close_forgets",
+            "Pyro.C10.C10_client_refines", "Pyro.C10.C10_client_exact", "Pyro.C10.C10_client_close_forgets", "Pyro.C10.C10_client_survives_loss",
             "Pyro.C10.C10_sched_prefix", "Pyro.C10.C10_sched_no_masking", "Pyro.C10.C10_sched_strict_masks",
             "Pyro.C10.C10_sched_cleanup_total", "Pyro.C10.C10_housekeeping_serial", "Pyro.Lock.atomic"]
 SUITES = ["histories", "interleavings"]
@@ -37,10 +37,6 @@ ASSUMPTIONS = ["uuid4 stream ids are never repeated (model: a counter)",
 TRUSTED = ["harness/props/c10_wire.py: real multiplex server thread + real proxies over a unix socket, synchronised by completed round trips",
            "harness/sched.py (deterministic scheduler, instrumented stream-table dict)",
            "the fake proxy of harness/props/c10.py stands for Proxy._pyroInvoke (connect on demand, 16-bit sequence number, forwards to the daemon object)"]
-
-EXPECTED_COMPARES = ["config.ITER_STREAM_LINGER > 0", "config.ITER_STREAM_LIFETIME > 0",
-                     "0 < config.ITER_STREAM_LIFETIME < last_use_period", "config.ITER_STREAM_LINGER > 0",
-                     "linger_period > config.ITER_STREAM_LINGER"]
 
 
 # ----------------------------------------------------------------------------------------------------
@@ -96,122 +92,14 @@ def _lock_shape(fn, lockname):
 
 
 def extract():
-    common.repo_on_path()
-    from Pyro5 import server, client, configure
-    stree = ast.parse(open(server.__file__).read())
-    ctree = ast.parse(open(client.__file__).read())
-    cfg = configure.Configuration()
-    fns = {
-        "get_next_stream_item": _find_func(stree, "DaemonObject", "get_next_stream_item"),
-        "close_stream": _find_func(stree, "DaemonObject", "close_stream"),
-        "_clientDisconnect": _find_func(stree, "Daemon", "_clientDisconnect"),
-        "_housekeeping": _find_func(stree, "Daemon", "_housekeeping"),
-    }
-    removals = [(k, _removals(f)) for k, f in fns.items()]
-    # comparisons that decide lingering / expiry, in source order
-    compares = []
-    for k in ("_clientDisconnect", "_housekeeping"):
-        cs = [n for n in ast.walk(fns[k]) if isinstance(n, ast.Compare) and "ITER_STREAM" in ast.unparse(n)]
-        compares += [ast.unparse(n) for n in sorted(cs, key=lambda n: (n.lineno, n.col_offset))]
-    # exception classes caught around next(stream), and whether the handler re-raises
-    nxt = fns["get_next_stream_item"]
-    handlers = [h for n in ast.walk(nxt) if isinstance(n, ast.Try) for h in n.handlers]
-    next_catches = [ast.unparse(h.type) if h.type is not None else "BaseException" for h in handlers]
-    next_reraises = all(any(isinstance(s, ast.Raise) and s.exc is None for s in h.body) for h in handlers) and bool(handlers)
-    # client: the 16-bit mask of _pyroSeq, the exceptions after which the iterator drops its proxy
-    masks = []
-    inv = _find_func(ctree, "Proxy", "_pyroInvoke")
-    for n in ast.walk(inv):
-        if isinstance(n, ast.Assign) and any(isinstance(t, ast.Attribute) and t.attr == "_pyroSeq" for t in n.targets) \
-                and isinstance(n.value, ast.BinOp) and isinstance(n.value.op, ast.BitAnd) and isinstance(n.value.right, ast.Constant):
-            masks.append(int(n.value.right.value))
-    if len(masks) != 1:
-        raise ValueError("source shape: _pyroSeq mask not found")
-    cnext = _find_func(ctree, "_StreamResultIterator", "__next__")
-    cl_handlers = [h for n in ast.walk(cnext) if isinstance(n, ast.Try) for h in n.handlers]
-    client_stop = []
-    for h in cl_handlers:
-        if isinstance(h.type, ast.Tuple):
-            client_stop += [ast.unparse(e) for e in h.type.elts]
-        elif h.type is not None:
-            client_stop.append(ast.unparse(h.type))
-    inside, outside = _lock_shape(fns["_housekeeping"], "housekeeper_lock")
-    # the user hook self.clientDisconnect(conn): called exactly once, as the last statement of _clientDisconnect
-    disc = fns["_clientDisconnect"]
-
-    def is_hook(n):
-        return isinstance(n, ast.Call) and isinstance(n.func, ast.Attribute) and n.func.attr == "clientDisconnect"
-    hook_calls = [n for n in ast.walk(disc) if is_hook(n)]
-    last = disc.body[-1]
-    hook_last = len(hook_calls) == 1 and isinstance(last, ast.Expr) and is_hook(last.value)
-    # how a new stream gets its id (the model: a fresh id that depends on nothing the client sends)
-    sr = _find_func(stree, "Daemon", "_streamResponse")
-    id_exprs = [ast.unparse(n.value) for n in ast.walk(sr) if isinstance(n, ast.Assign)
-                and any(isinstance(t, ast.Name) and t.id == "stream_id" for t in n.targets)]
-    if len(id_exprs) != 1:
-        raise ValueError("source shape: stream id assignment in _streamResponse not found")
-    # who runs housekeeping: the multiplex server after every batch of events (last statement of events(), outside the loop)
-    # and in the idle branch of loop(); the thread-pool server's Housekeeper thread
-    from Pyro5 import svr_multiplex, svr_threads
-
-    def is_hk(n):
-        return isinstance(n, ast.Expr) and isinstance(n.value, ast.Call) and isinstance(n.value.func, ast.Attribute) \
-            and n.value.func.attr == "_housekeeping"
-    mtree = ast.parse(open(svr_multiplex.__file__).read())
-    mux_events = _find_func(mtree, "SocketServer_Multiplex", "events")
-    mux_loop = _find_func(mtree, "SocketServer_Multiplex", "loop")
-    ttree = ast.parse(open(svr_threads.__file__).read())
-    hk_run = _find_func(ttree, "Housekeeper", "run")
-    mux_events_hk = is_hk(mux_events.body[-1])
-    mux_idle_hk = any(is_hk(n) for n in ast.walk(mux_loop))
-    thread_hk = any(is_hk(n) for n in ast.walk(hk_run))
-
-    def milli(x):
-        return int(round(float(x) * 1000))
-    rem = ", ".join('("%s", %s)' % (k, json.dumps(v)) for k, v in removals)
-    return f"""-- GENERATED by harness/props/c10.py from Pyro5/server.py, Pyro5/client.py, Pyro5/configure.py — do not edit
-namespace Pyro.Gen.C10
-/-- per function: how keys are removed from `streaming_responses`, in source order
-    ("del" = `del d[k]`, "pop-default" = `d.pop(k, default)`, "pop" = `d.pop(k)`) -/
-def removals : List (String × List String) := [{rem}]
-/-- the comparisons on ITER_STREAM_LINGER / ITER_STREAM_LIFETIME in _clientDisconnect and _housekeeping, in source order -/
-def compares : List String := {json.dumps(compares)}
-/-- exception classes caught around `next(stream)` in get_next_stream_item; every handler ends in a bare `raise` -/
-def nextCatches : List String := {json.dumps(next_catches)}
-def nextReraises : Bool := {"true" if next_reraises else "false"}
-/-- the mask in `self._pyroSeq = (self._pyroSeq + 1) & <mask>` -/
-def seqMask : Nat := {masks[0]}
-/-- exceptions after which `_StreamResultIterator.__next__` drops its proxy -/
-def clientStopCatches : List String := {json.dumps(client_stop)}
-/-- accesses of `streaming_responses` in `_housekeeping` inside / outside `with self.housekeeper_lock:` -/
-def hkLockInside : Nat := {inside}
-/-- `self.clientDisconnect(conn)` (user hook, may raise) is called once, as the LAST statement of `_clientDisconnect` -/
-def disconnectHookLast : Bool := {"true" if hook_last else "false"}
-/-- the expression assigned to `stream_id` in `_streamResponse` -/
-def streamIdExpr : String := {json.dumps(id_exprs[0])}
-/-- `SocketServer_Multiplex.events` ends (after its loop over the sockets) with `self.daemon._housekeeping()` -/
-def muxEventsHousekeeps : Bool := {"true" if mux_events_hk else "false"}
-/-- `SocketServer_Multiplex.loop` calls `_housekeeping` (idle branch); `svr_threads.Housekeeper.run` calls `_housekeeping` -/
-def muxIdleHousekeeps : Bool := {"true" if mux_idle_hk else "false"}
-def threadHousekeeperRuns : Bool := {"true" if thread_hk else "false"}
-def hkLockOutside : Nat := {outside}
-/-- configuration defaults (seconds * 1000) -/
-def defaultStreaming : Bool := {"true" if cfg.ITER_STREAMING else "false"}
-def defaultLifetimeMilli : Int := {milli(cfg.ITER_STREAM_LIFETIME)}
-def defaultLingerMilli : Int := {milli(cfg.ITER_STREAM_LINGER)}
-end Pyro.Gen.C10
-"""
+    """facts by probing the real code (c10_probe.py); nothing depends on the spelling of the source"""
+    from props import c10_probe
+    return c10_probe.extract()
 
 
 def _seq_mask():
-    common.repo_on_path()
-    from Pyro5 import client
-    inv = _find_func(ast.parse(open(client.__file__).read()), "Proxy", "_pyroInvoke")
-    for n in ast.walk(inv):
-        if isinstance(n, ast.Assign) and isinstance(n.value, ast.BinOp) and isinstance(n.value.op, ast.BitAnd) \
-                and isinstance(n.value.right, ast.Constant):
-            return int(n.value.right.value)
-    return 0xffff
+    from props import c10_probe
+    return c10_probe.facts()["mask"]
 
 
 # ----------------------------------------------------------------------------------------------------
@@ -419,11 +307,18 @@ class FakeProxy:
         self.world = world
         self._pyroConnection = None
         self._pyroSeq = seq0
+        self.lose_next = False
 
     def _prepare(self):
         if self._pyroConnection is None:
             self._pyroConnection = self.world.new_conn()
         self._pyroSeq = (self._pyroSeq + 1) & self.world.mask
+        if self.lose_next:
+            # the connection breaks while the request is under way (client.py 278-286): released, error re-raised
+            from Pyro5 import errors
+            self.lose_next = False
+            self._pyroRelease()
+            raise errors.ConnectionClosedError("connection lost")
         return self._pyroConnection
 
     def _pyroInvoke(self, methodname, vargs, kwargs, flags=0, objectId=None):
@@ -550,8 +445,10 @@ def gen_history(rng):
                     n_iters += 1
                     n_streams += 1
             conns_hi += 1
-        elif r < 0.52 and n_iters:
+        elif r < 0.49 and n_iters:
             ops.append(["inext", rng.randrange(n_iters) if rng.random() < 0.5 else n_iters - 1])
+        elif r < 0.52 and n_iters:
+            ops.append(["inextlost", rng.randrange(n_iters)])      # the connection breaks during the item request
         elif r < 0.58 and n_iters:
             ops.append(["iclose", rng.randrange(n_iters)])
         elif r < 0.65:
@@ -761,6 +658,13 @@ def run_history_real(world, h, ctx=None, judge=True):
                     v = next(iters[op[1]])
                     res = "item%d" % v
                     stats["items"] += 1
+                elif k == "inextlost":
+                    it = iters[op[1]]
+                    if it.proxy is not None and it.proxy._pyroConnection is not None:
+                        it.proxy.lose_next = True
+                        spec.hit("connection-lost-during-next")
+                    v = next(it)
+                    res = "item%d" % v
                 elif k == "iclose":
                     nc = world.next_conn
                     live = iters[op[1]].proxy is not None and iters[op[1]].proxy._pyroConnection is not None
@@ -802,8 +706,10 @@ def run_history_real(world, h, ctx=None, judge=True):
             except Exception as x:
                 res = canon_exc(x)
             results.append(res)
-            if k == "inext":
+            if k in ("inext", "inextlost"):
                 received[op[1]].append(res)
+            elif k == "iclose":
+                received[op[1]].append("closed-by-client")
             now_tab = world.table()
             after = set(e[0] for e in now_tab)
             stats["max_open"] = max(stats["max_open"], len(after))
@@ -820,15 +726,20 @@ def run_history_real(world, h, ctx=None, judge=True):
                     continue        # shared with another consumer: the per-reply check above covers it
                 src = world.sources[iter_stream[i]][0]
                 pos = 0
+                closed = False
                 for r in rec:
+                    if r == "closed-by-client":
+                        closed = True
+                        continue
                     if r.startswith("item") or r.startswith("raised"):
                         want = ("item%d" if src[pos][0] == "v" else "raised%d") % src[pos][1] if pos < len(src) else "nothing"
                         if r != want:
                             bad("seq:client-items", "client iterator %d received %s as reply number %d, its source has %s there" % (i, r, pos, want))
                             break
                         pos += 1
-                    elif r == "stop" and pos < len(src) and iters[i].proxy is not None:
-                        bad("seq:client-items", "client iterator %d got StopIteration after %d of %d items" % (i, pos, len(src)))
+                    elif r == "stop" and pos < len(src) and not closed:
+                        bad("seq:client-items", "client iterator %d reports exhaustion (StopIteration) after %d of the %d items of its "
+                            "source, without having been closed by the client" % (i, pos, len(src)))
                         break
         tab = world.table()
         out = ";".join(results) + " | " + (";".join("%d:%s:%d:%d:%s" % (k, "n" if o is None else o, ts, lts, items_tok(rest) or "-")
